@@ -1,6 +1,7 @@
 package rules
 
 import (
+	"os"
 	"fmt"
 	"go/token"
 	"strings"
@@ -17,6 +18,7 @@ func checkC13(P *core.Program, R *core.Report) {
 		"S1: the masterchef module's net inflow equals the amount the function reports as credited to LPs; S2: in rest := whole.Sub(Portion(whole', p)) whole ≡ whole' (this rule reported F-13a); the module account is never a payer in the gas/perpetual collectors (F-13b). " +
 		"External incentives: the amount funded is AmountPerBlock·(ToBlock − FromBlock) and the crediting window is FromBlock < h ≤ ToBlock (same count), credited per block with AmountPerBlock of the same record. ClaimRewards: the payout coin is RewardPending (truncated) of the record whose RewardPending is reset to zero on the same paths and stored/removed, and the accumulated coins are paid from the module. " +
 		"Checkpoints: UpdateUserRewardPending dominates UpdateUserRewardDebt for the same (pool, denom, user) with the matching deposit flag; the amounts handed to AfterBond/AfterUnbond/AfterJoinPool/AfterExitPool are the committed/uncommitted/minted/burnt share amounts themselves and masterchef's hooks forward them unchanged; masterchef's AmmHooks and StableStakeHooks are registered; a pool-info record modified in ProcessExternalRewardsDistribution reaches SetPoolInfo before it is dropped. Σ pending ≤ balance as a number, Eden (virtual) rewards and dust accounting are not decided."
+	checkSameKeyDelete(P, R, "C13-same-record", func(k string) bool { return os.Getenv("ELYSLINT_SAMEKEY_ALL") != "" || strings.HasPrefix(k, "x/masterchef/") })
 	checkSplits(P, R)
 	checkExternalIncentive(P, R)
 	checkClaimRewards(P, R)
